@@ -23,8 +23,12 @@ import (
 func (c *c11World) drawRequest() *c11Req {
 	// a planned I/O failure that has not fired yet: steer every third request towards the handler
 	// (or the writing state) it is aimed at
-	if c.persist && c.fires > 0 && c.state() == c11Healthy && simrt.Draw(3) == 2 {
-		// the file stays uncreatable: keep coming back to the requests that use it or the state around it
+	if (c.persist || c.full) && c.fires > 0 && c.state() == c11Healthy && simrt.Draw(3) == 2 {
+		// the file stays uncreatable (or its disk stays full): keep coming back to the requests that use
+		// it or the state around it
+		if c.full && (c.faultClass == "external-trigger" || c.faultClass == "data-drop") && simrt.Draw(2) == 0 {
+			return c.reqWriteControlFam(3) // STOP flushes the side logs
+		}
 		switch simrt.Draw(7) {
 		case 0:
 			return c.reqLabel()
@@ -45,10 +49,14 @@ func (c *c11World) drawRequest() *c11Req {
 		switch {
 		case c.faultClass == "temp-file":
 			return c.reqRawBlock()
+		case c.faultClass == "channel-groups":
+			// written by Start: nothing to steer
 		case c.writing != c11WOn:
 			return c.reqWriteControlFam(simrt.Draw(3))
 		case c.faultClass == "comment":
 			return c.reqWriteComment()
+		case c.full && c.faultClass == "experiment-state":
+			return c.reqWriteControlFam(3) // the second creation of the state file is the full one: STOP, then START again
 		}
 	}
 	switch k := simrt.Draw(38); {
